@@ -209,6 +209,41 @@ theorem C06_unversioned_marked (bs : List Block) (s₁ s₂ : Stmt) (h₁ : s₁
     (k₁ : nonUpdKey s₁ = some v) (k₂ : nonUpdKey s₂ = some v) : s₁ = s₂ ∨ MuOf bs v :=
   singleDef_unversioned (stmtsOf bs) s₁ s₂ h₁ h₂ v k₁ k₂
 
+/-- what the second half of the pre-pass guarantees for a variable it does not mark: at every statement that reads it, its
+    (last) counted assignment is an earlier statement of the same block or lies in a block that dominates the reading block — with
+    C15 (`Dom`: every path from the entry to the reading block passes through the assigning block) the assignment comes before
+    the read on every path.  (Repair 487d6b8: before, `if (in == 0) { s <-- 1; } if (s == 1)` was claimed always true.) -/
+theorem C06_unmarked_reads_dominated (bs : List Block) (i j : Nat) (b : Block) (s : Stmt) (v : VName)
+    (hb : bs[i]? = some b) (hs : b.stmts[j]? = some s) (hv : v ∈ readsS s) (d k : Nat)
+    (hd : lastDef (defSites bs) v = some (d, k)) (hun : v ∉ undom bs) :
+    (d = i ∧ k ≤ j) ∨ (d ≠ i ∧ d ∈ b.doms) := by
+  by_cases hok : (if d == i then decide (k ≤ j) else b.doms.contains d) = true
+  · by_cases hdi : d = i
+    · subst hdi; simp at hok; exact Or.inl ⟨rfl, hok⟩
+    · have : (d == i) = false := by simpa using hdi
+      simp [this] at hok; exact Or.inr ⟨hdi, hok⟩
+  · exfalso
+    apply hun
+    unfold undom
+    simp only
+    rw [List.mem_flatMap]
+    refine ⟨(b, i), ?_, ?_⟩
+    · exact List.mem_zipIdx_iff_getElem?.mpr (by simpa using hb)
+    · rw [List.mem_flatMap]
+      refine ⟨(s, j), List.mem_zipIdx_iff_getElem?.mpr (by simpa using hs), ?_⟩
+      rw [List.mem_filter]
+      refine ⟨hv, ?_⟩
+      simp only [hd]
+      cases h : (if d == i then decide (k ≤ j) else b.doms.contains d) with
+      | true => exact absurd h hok
+      | false => rfl
+
+/-- ... and a marked variable (by either half of the pre-pass) starts as not constant -/
+theorem C06_prepass_marks (p : Int) (bs : List Block) (v : VName) (h : v ∈ multiOf (stmtsOf bs) ∨ v ∈ undom bs) :
+    (valInit p bs).nonConstant.contains v = true := by
+  have : v ∈ multiOf (bs.flatMap (·.stmts)) ∨ v ∈ undom bs := h
+  simpa [valInit] using this
+
 /-- a marked variable never gets a value: no read of it is ever annotated from the environment -/
 theorem C06_marked_never_recorded (env : ValEnv) (v : VName) (x : Val) (h : env.nonConstant.contains v = true) :
     env.add v x = env := add_marked env v x h
